@@ -4353,13 +4353,21 @@ class Canon:
         b = self._inline_unknown_constants(b, module, fn)      # .. those read by the helpers that were just inlined
         b = [ast.fix_missing_locations(_FoldConst().visit(s_)) for s_ in self._inline_class_constants(b, cls)]
         b = self._fold_constant_lengths(b, module, fn)
+        if any(isinstance(n, ast.Call) and isinstance(n.func, ast.Subscript) and isinstance(n.func.value, ast.Dict) for s_ in b for n in ast.walk(s_)):
+            # a dispatch table that was just written in: the chain of conditional calls, each arm's helper then seen through
+            b_t = lift_walrus(lift_ifexp([ast.fix_missing_locations(_ExprNorm().visit(copy.deepcopy(s_))) for s_ in b]))
+            b = inl.rec(b_t, inl.depth, (fn.name,))
+            b = [x for x in (_StripAnn().visit(s_) for s_ in b) if not isinstance(x, ast.Pass)] or b
         b = norm.merge_display_building(b)
         b = self.sink_record_tail(b, module)
         b = self._project_helper_objects(b, module)
         b = self._project_records_multi(b, module)
         from .iterlow import lower_iter_pipelines, rotate_loops
         b = lower_iter_pipelines(b)          # itertools pipelines over count() as counting loops
-        b = lift_walrus(lift_ifexp(b))          # conditional expressions returned by inlined helpers
+        b_l = lift_walrus(lift_ifexp([copy.deepcopy(x) for x in b]))          # conditional expressions returned by inlined helpers
+        if ast.dump(ast.Module(body=b_l, type_ignores=[])) != ast.dump(ast.Module(body=b, type_ignores=[])):
+            b = inl.rec(b_l, inl.depth, (fn.name,))       # (helpers called in the arms that only now stand on their own)
+            b = [x for x in (_StripAnn().visit(s_) for s_ in b) if not isinstance(x, ast.Pass)] or b
         used = {n.id for s in b for n in ast.walk(s) if isinstance(n, ast.Name)} | {n.func.id for s in b for n in ast.walk(s) if isinstance(n, ast.Call) and isinstance(n.func, ast.Name)}
         b = [s for s in b if not (isinstance(s, ast.FunctionDef) and s.name not in used)]
         b = [ast.fix_missing_locations(_FoldConst().visit(s_)) for s_ in norm.unroll_literal_loops(inline_table_locals(b))]      # (rows of a table written in for the loop variable)
